@@ -23,6 +23,16 @@ Definition EMerge : N := 4.   (* fan-in: duplicated key *)
 
 (* ================================================================ overlap check *)
 
+Fixpoint prefix (p q : path) : bool :=
+  match p, q with
+  | [], _ => true
+  | _ :: _, [] => false
+  | x :: p', y :: q' => N.eqb x y && prefix p' q'
+  end.
+
+(* two target paths overlap: one equals or is a prefix of the other *)
+Definition conflict (p q : path) : bool := prefix p q || prefix q p.
+
 Inductive trie : Type :=
 | Term                                   (* struct{}{} : a mapped (terminal) path ends here *)
 | Node (cs : list (N * trie)).           (* map[string]any *)
